@@ -15,7 +15,7 @@ Property theorems only (helper lemmas: `Proofs/ConeOrder.lean`, `ConeTheta.lean`
   `∀ w ∈ W, 0 ≤ w · x`.
 -/
 namespace VOPy.C12
-open VOPy VOPy.ConeFormulas Real
+open VOPy VOPy.ConeOrd VOPy.ConeFormulas Real
 
 /-! ## A. The relation -/
 
